@@ -154,6 +154,14 @@ pub struct WlSpec {
     pub limit: u32,
     /// Merkle leaf format: 0 sender; 1 sender+allocation; 2 stage+sender; 3 stage+sender+allocation
     pub leaf_fmt: u8,
+    /// tiered list kinds, instantiate shape: member lists sent AFTER the per-stage ones (more
+    /// lists than stages).  They name buyers who belong to no stage: the ledger gives them none.
+    #[serde(default)]
+    pub extra_lists: Vec<Vec<String>>,
+    /// tiered list kinds, instantiate shape: this many of the last per-stage lists are NOT sent
+    /// (fewer lists than stages; the stages without a list have no members)
+    #[serde(default)]
+    pub short_lists: usize,
 }
 
 #[derive(Clone, Debug, Serialize, Deserialize)]
@@ -346,6 +354,10 @@ fn coinv(amount: u128, denom: &str) -> Value {
 fn wl_msg(spec: &WlSpec, windows: &[(u64, u64)]) -> (Value, u128) {
     let flexm = |ms: &Vec<String>| -> Vec<Value> { ms.iter().map(|m| json!({"address": m, "mint_count": spec.limit})).collect() };
     let s0 = &spec.stages[0];
+    // the member lists as sent: one per stage (minus the ones deliberately left out), then the surplus ones
+    let mut lists: Vec<Vec<String>> = spec.stages.iter().map(|s| s.members.clone()).collect();
+    lists.truncate(lists.len().saturating_sub(spec.short_lists));
+    lists.extend(spec.extra_lists.iter().cloned());
     let stages_json = |with_pal: bool| -> Vec<Value> {
         spec.stages
             .iter()
@@ -374,12 +386,12 @@ fn wl_msg(spec: &WlSpec, windows: &[(u64, u64)]) -> (Value, u128) {
             100_000_000,
         ),
         Kind::Tiered => (
-            json!({"members": spec.stages.iter().map(|s| s.members.clone()).collect::<Vec<_>>(), "stages": stages_json(true),
+            json!({"members": lists.iter().map(|l| json!(l)).collect::<Vec<_>>(), "stages": stages_json(true),
                    "member_limit": 1000, "admins": [CREATOR], "admins_mutable": true}),
             100_000_000,
         ),
         Kind::TieredFlex => (
-            json!({"members": spec.stages.iter().map(|s| flexm(&s.members)).collect::<Vec<_>>(), "stages": stages_json(false),
+            json!({"members": lists.iter().map(|l| json!(flexm(l))).collect::<Vec<_>>(), "stages": stages_json(false),
                    "member_limit": 1000, "admins": [CREATOR], "admins_mutable": true, "whale_cap": null}),
             100_000_000,
         ),
@@ -927,7 +939,19 @@ pub fn run_case(c: &Case) -> CaseResult {
         let windows: Vec<(u64, u64)> = spec.stages.iter().map(|s| (w.abs(s.start), w.abs(s.end))).collect();
         let (msg, fee) = wl_msg(spec, &windows);
         match w.add_whitelist(slot, spec.kind, &msg, fee) {
-            Ok(addr) => wls.push(WlInfo { spec: spec.clone(), addr, windows, added: BTreeSet::new() }),
+            Ok(addr) => {
+                let mut sp = spec.clone();
+                let n = sp.stages.len();
+                for g in sp.stages.iter_mut().skip(n.saturating_sub(sp.short_lists)) {
+                    g.members.clear(); // no list was sent for this stage
+                }
+                wls.push(WlInfo { spec: sp, addr, windows, added: BTreeSet::new() })
+            }
+            Err(_) if spec.short_lists > 0 => {
+                // fewer member lists than stages: the whitelist refuses to be created; nothing to run
+                *res.hist.entry(format!("{}:create-whitelist-{}-short-lists:err", vname, spec.kind.name())).or_insert(0) += 1;
+                return res;
+            }
             Err(e) => {
                 *res.hist.entry(format!("{}:create-whitelist-{}:err", vname, spec.kind.name())).or_insert(0) += 1;
                 res.violations.push(("C04:harness-whitelist-not-created".into(), format!("{}: {:?}: {}", vname, spec.kind, e), 0));
@@ -1444,7 +1468,7 @@ fn shape(fam: Fam, kind: Kind, sh: usize) -> (WlSpec, Vec<T>) {
     }
     bs.sort();
     bs.dedup();
-    (WlSpec { kind, stages, limit: 5, leaf_fmt: (sh % 4) as u8 }, bs)
+    (WlSpec { kind, stages, limit: 5, leaf_fmt: (sh % 4) as u8, extra_lists: vec![], short_lists: 0 }, bs)
 }
 
 /// who tries what at one instant
@@ -1674,7 +1698,7 @@ fn update_end_cases(fam: Fam, kind: Option<Kind>) -> Vec<Case> {
 /// SetWhitelist at the start boundary and at the activity boundaries of the old / the new whitelist
 fn set_whitelist_cases(fam: Fam, kind: Kind) -> Vec<Case> {
     let stage = |s: T, e: T, p: u128, m: &str| StageSpec { start: s, end: e, price: p, members: vec![m.to_string()], stage_limit: None };
-    let mk_spec = |stages: Vec<StageSpec>| WlSpec { kind, stages, limit: 5, leaf_fmt: 0 };
+    let mk_spec = |stages: Vec<StageSpec>| WlSpec { kind, stages, limit: 5, leaf_fmt: 0, extra_lists: vec![], short_lists: 0 };
     // old: [1000, 2000) for M1; new: [1500, 2500) for M2 (two stages when tiered); late: (3500, 4000) after the public start
     let old = mk_spec(vec![stage(T(1000, 0), T(2000, 0), 60, M1)]);
     let new = if kind.tiered() {
@@ -1760,6 +1784,33 @@ fn set_whitelist_cases(fam: Fam, kind: Kind) -> Vec<Case> {
         o.extend(probe());
         o
     });
+    // the full replacement matrix in one history: attached {not started, active, ended} x new {not started, active, ended}
+    {
+        let one = |a: u64, b: u64, p: u128, m: &str| mk_spec(vec![stage(T(a, 0), T(b, 0), p, m)]);
+        // A [1000,2000)  B [1500,2500)  D [450,700)  E [300,400)  F [900,1200)  L [3500,4000)
+        let ws = vec![one(1000, 2000, 60, M1), one(1500, 2500, 70, M2), one(450, 700, 62, M2), one(300, 400, 64, M2), one(900, 1200, 66, M2), one(3500, 4000, 80, M2)];
+        let (a_, b_, d_, e_, f_, l_) = (0usize, 1usize, 2usize, 3usize, 4usize, 5usize);
+        let m1 = |p: u128| if fam.merkle() && kind.merkle() { COp::MintP { who: M1.into(), funds: native(p), slot: 0, tree: 0, proof_for: Some(M1.into()) } } else { mint(M1, p) };
+        // tiered kinds are still active AT their end instant
+        let after = |t: u64| if kind.tiered() { T(t, 1) } else { T(t, 0) };
+        let ops = vec![
+            attach(CREATOR, a_),
+            // attached not started x new active / ended / not started
+            at(T(500, 0)), attach(CREATOR, d_), attach(CREATOR, e_),
+            // attached ended x new not started / active / ended
+            attach(CREATOR, a_), attach(CREATOR, e_), attach(CREATOR, d_), attach(CREATOR, e_),
+            attach(CREATOR, a_), attach(CREATOR, b_), attach(STRANGER, a_), attach(CREATOR, a_),
+            // attached active x new not started / active / ended
+            at(T(1000, 0)), attach(CREATOR, l_), attach(CREATOR, f_), attach(CREATOR, e_), attach(CREATOR, a_), m1(60),
+            // attached ended x new active / ended / not started
+            at(after(2000)), attach(CREATOR, b_), m1(60), attach(CREATOR, e_), attach(CREATOR, l_),
+            // attached not started x new ended, and back
+            at(after(2500)), attach(CREATOR, b_), attach(CREATOR, l_), mint(NM, PUB),
+            // after the public start nothing moves any more
+            at(T(START, 0)), attach(CREATOR, b_), mint(NM, PUB),
+        ];
+        v.push(base_case(format!("set-whitelist:{}:{}:replace-matrix", fam.name(), kind.name()), fam, ws, ops));
+    }
     v
 }
 
@@ -1782,7 +1833,7 @@ fn overlap_cases(fam: Fam, kind: Kind) -> Vec<Case> {
         (vec![st(T(START - 500, 0), wend, 60, &[M1, M2])], 0usize)
     };
     let wlp = stages[tree].price;
-    let spec = WlSpec { kind, stages, limit: 9, leaf_fmt: 1 };
+    let spec = WlSpec { kind, stages, limit: 9, leaf_fmt: 1, extra_lists: vec![], short_lists: 0 };
     let member = |who: &str, p: u128| -> COp {
         if fam.merkle() && kind.merkle() {
             mintp(who, p, tree, Some(who))
@@ -1793,7 +1844,7 @@ fn overlap_cases(fam: Fam, kind: Kind) -> Vec<Case> {
     // everybody tries every price that is around
     let round = |who: &str, prices: &[u128]| -> Vec<COp> {
         let mut o = vec![];
-        for p in prices {
+        for p in prices.iter().take(2) {
             o.push(member(NM, *p));
         }
         for p in prices {
@@ -1904,7 +1955,7 @@ fn wl_admin_cases(fam: Fam, kind: Kind, full: bool) -> Vec<Case> {
         c.num_tokens = 40;
         v.push(c);
     };
-    let mk = |stages: Vec<StageSpec>| WlSpec { kind, stages, limit: 9, leaf_fmt: 0 };
+    let mk = |stages: Vec<StageSpec>| WlSpec { kind, stages, limit: 9, leaf_fmt: 0, extra_lists: vec![], short_lists: 0 };
     if kind.tiered() && !kind.merkle() {
         let w3 = mk(vec![st(T(1000, 0), T(1500, 0), 60, &[M1]), st(T(1600, 0), T(2000, 0), 70, &[M2]), st(T(2100, 0), T(2600, 0), 80, &[NM])]);
         let rm = |who: &str, slot: usize, stage: u32| COp::WlRemoveStage { who: who.into(), slot, stage };
@@ -1943,6 +1994,51 @@ fn wl_admin_cases(fam: Fam, kind: Kind, full: bool) -> Vec<Case> {
                  COp::WlUpdateStage { who: CREATOR.into(), slot: 0, stage: 2, start: Some(T(1900, 5)), end: None, price: None }],
             at_round(T(1600, 0), 1, &[75, 70]), at_round(T(1800, 0), 1, &[75]), at_round(T(1800, 1), 1, &[75]),
             at_round(T(1900, 4), 2, &[80]), at_round(T(1900, 5), 2, &[80]), at_round(T(2100, 0), 2, &[80]),
+        ]);
+
+        // ---- instantiate shapes: more / fewer member lists than stages, empty lists; then AddStage
+        // makes the index of a surplus list a real stage.  The buyers of a surplus list were never
+        // put into any stage: the ledger gives them none.
+        let shaped = |stages: Vec<StageSpec>, extra: Vec<Vec<String>>, short: usize| WlSpec { kind, stages, limit: 9, leaf_fmt: 0, extra_lists: extra, short_lists: short };
+        let s0 = || st(T(1000, 0), T(1500, 0), 60, &[M1]);
+        let s1 = |m: &[&str]| st(T(1600, 0), T(2000, 0), 70, m);
+        let s2 = |m: &[&str]| st(T(2100, 0), T(2600, 0), 80, m);
+        // one stage, two lists: the second list's index becomes stage 2 by one AddStage
+        add("instantiate-one-surplus-list", vec![shaped(vec![s0()], vec![names(&[NM])], 0)], vec![
+            vec![attach(CREATOR, 0), at(T(500, 0)), ads(CREATOR, 0, s1(&[M2]))],
+            at_round(T(1000, 0), 0, &[60]), at_round(T(1600, -1), 1, &[70]), at_round(T(1600, 0), 1, &[70]), at_round(T(2000, 0), 1, &[70]),
+        ]);
+        // one stage, three lists: two AddStages walk into both surplus indices
+        if full {
+        add("instantiate-two-surplus-lists", vec![shaped(vec![s0()], vec![names(&[NM]), names(&[STRANGER, M1])], 0)], vec![
+            vec![attach(CREATOR, 0), at(T(500, 0)), ads(CREATOR, 0, s1(&[M2])), ads(CREATOR, 0, s2(&[M2]))],
+            at_round(T(1600, 0), 1, &[70]), at_round(T(2100, 0), 2, &[80]), at_round(T(2600, 0), 2, &[80]),
+        ]);
+        // two stages, three lists, and the surplus buyer is ALSO added properly later on (then he is a member)
+        add("instantiate-surplus-then-added", vec![shaped(vec![s0(), s1(&[M2])], vec![names(&[NM, STRANGER])], 0)], vec![
+            vec![attach(CREATOR, 0), at(T(500, 0)), ads(CREATOR, 0, s2(&[M1]))],
+            at_round(T(2100, 0), 2, &[80]),
+            vec![COp::WlAdd { who: CREATOR.into(), slot: 0, stage: 2, members: names(&[NM]) }],
+            round(2, &[80]),
+        ]);
+        }
+        // surplus list, then the last real stage is removed and two stages are added: indices 1 and 2 both re-created
+        add("instantiate-surplus-remove-rebuild", vec![shaped(vec![s0(), s1(&[M2])], vec![names(&[NM])], 0)], vec![
+            vec![attach(CREATOR, 0), at(T(500, 0)), rm(CREATOR, 0, 1), ads(CREATOR, 0, s1(&[STRANGER])), ads(CREATOR, 0, s2(&[M1]))],
+            at_round(T(1600, 0), 1, &[70]), at_round(T(2100, 0), 2, &[80]),
+        ]);
+        if full {
+        // empty lists: a stage nobody is in, an empty surplus list, then a stage added with a list
+        add("instantiate-empty-lists", vec![shaped(vec![st(T(1000, 0), T(1500, 0), 60, &[]), s1(&[M2])], vec![vec![]], 0)], vec![
+            vec![attach(CREATOR, 0), at(T(500, 0)), ads(CREATOR, 0, s2(&[NM]))],
+            at_round(T(1000, 0), 0, &[60]), at_round(T(1600, 0), 1, &[70]), at_round(T(2100, 0), 2, &[80]),
+        ]);
+        }
+        // fewer lists than stages: refused at creation as the code stands; should it ever be accepted,
+        // the stage without a list has no members
+        add("instantiate-fewer-lists", vec![shaped(vec![s0(), s1(&[M2])], vec![], 1)], vec![
+            vec![attach(CREATOR, 0), at(T(500, 0)), ads(CREATOR, 0, s2(&[NM]))],
+            at_round(T(1000, 0), 0, &[60]), at_round(T(1600, 0), 1, &[70]), at_round(T(2100, 0), 2, &[80]),
         ]);
         if full {
             // everything removed, three new stages with the lists rotated; a fourth is refused
@@ -2063,6 +2159,8 @@ fn random_case(rng: &mut Rng, fam: Fam, n: usize, lits: &[u128]) -> Case {
         stages: vec![StageSpec { start: T(a, 0), end: T(b, 0), price: 65, members: vec![M2.to_string(), NM.to_string()], stage_limit: None }],
         limit: 5,
         leaf_fmt: 0,
+        extra_lists: vec![],
+        short_lists: 0,
     };
     bs.push(T(a, 0));
     bs.push(T(b, 0));
@@ -2229,10 +2327,10 @@ fn corpus(thorough: bool, rng: &mut Rng) -> Vec<Case> {
                 v.extend(set_whitelist_cases(fam, *kind));
             } else if ki == fi % kinds.len() {
                 // quick tier: the +1ns neighbours of the old / new whitelist's edges are left to the thorough tier
-                v.extend(set_whitelist_cases(fam, *kind).into_iter().filter(|c| !((c.label.ends_with("+1ns") || c.label.ends_with("-1ns")) && !c.label.contains(":start"))));
+                v.extend(set_whitelist_cases(fam, *kind).into_iter().filter(|c| c.label.contains(":start") || c.label.contains(":replace-") || c.label.ends_with(":old-start") || c.label.ends_with(":new-end")));
             } else {
                 // the start boundary of SetWhitelist for every pairing even in the quick tier
-                v.extend(set_whitelist_cases(fam, *kind).into_iter().filter(|c| c.label.contains(":start")));
+                v.extend(set_whitelist_cases(fam, *kind).into_iter().filter(|c| c.label.ends_with(":replace-matrix")));
             }
         }
         v.extend(update_start_cases(fam, None));
